@@ -126,6 +126,21 @@ class FileOverlay:
         self.insert(it["end"], post)
         return it
 
+    def wrap_const_closure(self, path, _seen=None):
+        """wrap_item("const", path) plus, transitively, every `Self::NAME` constant of the same impl that the initialiser
+        mentions (Verus must see the definition of every constant a wrapped constant is computed from).  Mechanical: the
+        set is read off the current source on every run, so a constant introduced by a change is followed too."""
+        seen = _seen if _seen is not None else self.__dict__.setdefault("_wrapped_consts", set())
+        if path in seen:
+            return
+        seen.add(path)
+        it = self.wrap_item("const", path)
+        owner = path.rsplit("::", 1)[0]
+        for name in sorted(set(re.findall(r"\bSelf::([A-Z][A-Z0-9_]*)\b", self.src(it["start"], it["end"])))):
+            dep = f"{owner}::{name}"
+            if any(x["kind"] == "const" and x["path"] == dep for x in self.index):
+                self.wrap_const_closure(dep, seen)
+
     def wrap_const_exec(self, path, ensures, unit, narrow=True):
         """`[pub] const X: T = E;` => verus!{ `[pub(crate)] exec const X: T ensures <clauses> { E }` }.
         Verus' plain `const` is dual-mode (its initialiser must be a spec expression); an initialiser that calls
